@@ -656,6 +656,11 @@ func runPhase(w *world, cfgS hx.Sx, run int, ph phase, snapPrev snapshot, trunca
 				note("graceful stop: Stop returned, the helper exited by itself")
 			} else {
 				note("graceful stop: the helper exited without finishing Stop")
+				if b, _ := os.ReadFile(filepath.Join(w.dir, fmt.Sprintf("child%d.err", run))); len(bytes.TrimSpace(b)) == 0 {
+					note("graceful stop: ... and printed nothing (no panic, no fatal: killed by the signal itself)")
+				} else if bytes.Contains(b, []byte("panic")) {
+					note("graceful stop: ... with a panic")
+				}
 			}
 		case <-time.After(5 * time.Second):
 			note("graceful stop: Stop did not return within 5 s, killed")
